@@ -43,6 +43,11 @@ class CopyPropagate:
             ):
                 # direct assignment: x = y
                 # substitute all occurences of this definition of `x` with `y`
+                # -- sound only while `y` still holds what was copied: a `y`
+                # that is assigned (or stored into) anywhere else may have
+                # moved on by the time `x` is read
+                if len(def_use.name_to_defs[d.site.expr.name]) != 1:
+                    continue
                 if any(isinstance(u, Var) for u in def_use.uses[d]):
                     # only propagate if there is a read to replace: an element
                     # store `x[i] = e` or a call `x(...)` uses `x` too, but the
